@@ -153,4 +153,241 @@ theorem uniq_old2new_eq_iff (hsep : Separated t pts cl) (i j : Nat) (hi : i < pt
     have e2 := huniq rj jj hnj (by rw [hclj, h])
     rw [hri, hrj, e1, e2]
 
+/-! ### `fracs.utils.uniquify_points`: edges after the merger -/
+
+/-- Edges whose end points fall into the same cluster are deleted (and reported), all others
+    survive in order with their end points renumbered by `old_2_new` and their tags untouched. -/
+theorem uniquifyPoints_edges (hsep : Separated t pts cl) (edges : List (List Nat))
+    (hvalid : ∀ e ∈ edges, ∃ a b tags, e = a :: b :: tags ∧ a < pts.length ∧ b < pts.length) :
+    (uniquifyPoints .chain t pts edges).1 = (uniquify .chain t pts).pts ∧
+    (uniquifyPoints .chain t pts edges).2.1 =
+      (edges.filter (fun e => !sameCluster cl e)).map (mapEdge (uniquify .chain t pts).old2new) ∧
+    ∀ k, k ∈ (uniquifyPoints .chain t pts edges).2.2 ↔
+      ∃ e, edges[k]? = some e ∧ sameCluster cl e = true := by
+  have hpe : ∀ e ∈ edges, isPointEdge (mapEdge (uniquify .chain t pts).old2new e) = sameCluster cl e := by
+    intro e he
+    obtain ⟨a, b, tags, rfl, ha, hb⟩ := hvalid e he
+    have hiff := uniq_old2new_eq_iff hsep a b ha hb
+    obtain ⟨ra, _, hra, _⟩ := (uniq_maps_consistent hsep).2 a ha
+    obtain ⟨rb, _, hrb, _⟩ := (uniq_maps_consistent hsep).2 b hb
+    simp only [mapEdge, isPointEdge, sameCluster, List.getD_eq_getElem?_getD, hra, hrb, Option.getD_some]
+    rw [hra, hrb] at hiff
+    by_cases hc : cl a = cl b
+    · have : ra = rb := Option.some.inj (hiff.mpr hc)
+      simp [hc, this]
+    · have : ra ≠ rb := fun e => hc (hiff.mp (by rw [e]))
+      simp [hc, this]
+  refine ⟨rfl, ?_, ?_⟩
+  · show ((edges.map (mapEdge _)).filter (fun e => !isPointEdge e)) = _
+    rw [List.filter_map]
+    congr 1
+    exact List.filter_congr (fun e he => by simp [hpe e he])
+  · intro k
+    show k ∈ ((enumFrom 0 (edges.map (mapEdge _))).filter (fun p => isPointEdge p.2)).map (·.1) ↔ _
+    rw [mem_filter_enum_fst (edges.map (mapEdge _)) isPointEdge k]
+    constructor
+    · rintro ⟨e', he', hp⟩
+      rw [List.getElem?_map] at he'
+      cases hek : edges[k]? with
+      | none => rw [hek] at he'; cases he'
+      | some e =>
+        rw [hek] at he'
+        simp only [Option.map_some, Option.some.injEq] at he'
+        subst he'
+        exact ⟨e, rfl, by rw [← hpe e (List.mem_of_getElem? hek)]; exact hp⟩
+    · rintro ⟨e, hek, hs⟩
+      refine ⟨mapEdge _ e, by rw [List.getElem?_map, hek]; rfl, ?_⟩
+      rw [hpe e (List.mem_of_getElem? hek)]; exact hs
+
+/-! ### `ismember_columns` -/
+
+/-- `ismember_columns` (mask and indices) equals the brute-force comparison of every column of `a`
+    with every column of `b`, in both sort modes; the index returned for a member column is the
+    first matching column of `b`. -/
+theorem ismember_eq_brute (a b : List Col) (sort : Bool) :
+    ismember a b sort = bruteMember a b sort := ismember_eq_brute' a b sort
+
+/-- in `sort=True` mode two columns match iff they are permutations of each other -/
+theorem sortCol_eq_iff_perm (c d : Col) : colKey true c = colKey true d ↔ c.Perm d := by
+  simp only [colKey, if_true]
+  exact sortCol_eq_iff_perm' c d
+
+/-- reading of the brute-force specification: mask entry and returned index of a member column -/
+theorem ismember_spec (a b : List Col) (sort : Bool) :
+    (ismember a b sort).1 = a.map (fun c => decide (∃ d ∈ b, colKey sort c = colKey sort d)) ∧
+    (ismember a b sort).2.length = ((ismember a b sort).1.filter id).length ∧
+    ∀ c ∈ a, (∃ d ∈ b, colKey sort c = colKey sort d) →
+      ∃ d, b[b.findIdx (fun d => decide (colKey sort c = colKey sort d))]? = some d ∧
+        colKey sort c = colKey sort d := by
+  rw [ismember_eq_brute]
+  refine ⟨?_, ?_, ?_⟩
+  · simp only [bruteMember]
+    refine List.map_congr_left (fun c _ => ?_)
+    rw [Bool.eq_iff_iff, List.any_eq_true, decide_eq_true_iff]
+    simp
+  · simp only [bruteMember, List.length_map, List.filter_map]
+    rfl
+  · rintro c _ ⟨d, hd, hcd⟩
+    have hlt : b.findIdx (fun d => decide (colKey sort c = colKey sort d)) < b.length :=
+      List.findIdx_lt_length_of_exists ⟨d, hd, by simpa using hcd⟩
+    refine ⟨b[b.findIdx (fun d => decide (colKey sort c = colKey sort d))], List.getElem?_eq_getElem hlt, ?_⟩
+    have := List.findIdx_getElem (w := hlt)
+    simpa using this
+
+/-! ### `intersect_sets` -/
+
+/-- `intersect_sets` agrees with brute-force comparison: the pair lists, `ia`, `ib` (sorted,
+    duplicate-free) and the mask `a_in_b`. -/
+theorem intersect_spec (a b : List Pt) :
+    (∀ (i : Nat) (l : List Nat), (intersectSets t a b).inter[i]? = some l ↔
+        ∃ p : Pt, a[i]? = some p ∧ l = neighbours t b p) ∧
+    (∀ (p : Pt) (j : Nat), j ∈ neighbours t b p ↔ ∃ q : Pt, b[j]? = some q ∧ dist2 p q ≤ t * t) ∧
+    (∀ i, i ∈ (intersectSets t a b).ia ↔
+        ∃ (p q : Pt) (j : Nat), a[i]? = some p ∧ b[j]? = some q ∧ dist2 p q ≤ t * t) ∧
+    (∀ j, j ∈ (intersectSets t a b).ib ↔
+        ∃ (p q : Pt) (i : Nat), a[i]? = some p ∧ b[j]? = some q ∧ dist2 p q ≤ t * t) ∧
+    (intersectSets t a b).ia.Pairwise (· < ·) ∧ (intersectSets t a b).ib.Pairwise (· < ·) ∧
+    (intersectSets t a b).aInB = a.map (fun p => decide (∃ q ∈ b, dist2 p q ≤ t * t)) := by
+  have hne : ∀ p : Pt, (neighbours t b p).isEmpty = false ↔
+      ∃ (q : Pt) (j : Nat), b[j]? = some q ∧ dist2 p q ≤ t * t := by
+    intro p
+    constructor
+    · intro h
+      cases hl : neighbours t b p with
+      | nil => rw [hl] at h; cases h
+      | cons j l =>
+        obtain ⟨q, hq⟩ := mem_neighbours.mp (by rw [hl]; exact List.mem_cons_self)
+        exact ⟨q, j, hq⟩
+    · rintro ⟨q, j, hq⟩
+      have : j ∈ neighbours t b p := mem_neighbours.mpr ⟨q, hq⟩
+      cases hl : neighbours t b p with
+      | nil => rw [hl] at this; cases this
+      | cons _ _ => rfl
+  refine ⟨?_, fun p j => mem_neighbours, ?_, ?_, ?_, ?_, ?_⟩
+  · intro i l
+    show (a.map (neighbours t b))[i]? = some l ↔ _
+    rw [List.getElem?_map]
+    cases a[i]? with
+    | none => simp
+    | some p => simp [eq_comm]
+  · intro i
+    show i ∈ ((enumFrom 0 (a.map (neighbours t b))).filter (fun r => !r.2.isEmpty)).map (·.1) ↔ _
+    rw [mem_filter_enum_fst (a.map (neighbours t b)) (fun l => !l.isEmpty) i]
+    constructor
+    · rintro ⟨l, hl, hp⟩
+      rw [List.getElem?_map] at hl
+      cases hai : a[i]? with
+      | none => rw [hai] at hl; cases hl
+      | some p =>
+        rw [hai] at hl
+        simp only [Option.map_some, Option.some.injEq] at hl
+        subst hl
+        obtain ⟨q, j, hq⟩ := (hne p).mp (by simpa using hp)
+        exact ⟨p, q, j, rfl, hq⟩
+    · rintro ⟨p, q, j, hp, hq⟩
+      refine ⟨neighbours t b p, by rw [List.getElem?_map, hp]; rfl, ?_⟩
+      have := (hne p).mpr ⟨q, j, hq⟩
+      simp [this]
+  · intro j
+    show j ∈ dedup (isortBy _ (a.map (neighbours t b)).flatten) ↔ _
+    rw [mem_dedup, mem_isortBy, List.mem_flatten]
+    constructor
+    · rintro ⟨l, hl, hj⟩
+      obtain ⟨p, hp, rfl⟩ := List.mem_map.mp hl
+      obtain ⟨q, hq⟩ := mem_neighbours.mp hj
+      obtain ⟨i, hi⟩ := List.mem_iff_getElem?.mp hp
+      exact ⟨p, q, i, hi, hq⟩
+    · rintro ⟨p, q, i, hi, hq⟩
+      exact ⟨neighbours t b p, List.mem_map.mpr ⟨p, List.mem_of_getElem? hi, rfl⟩,
+        mem_neighbours.mpr ⟨q, hq⟩⟩
+  · exact filter_enum_fst_sorted _ _
+  · exact dedup_sorted_strict _
+  · show (a.map (neighbours t b)).map (fun l => !l.isEmpty) = _
+    rw [List.map_map]
+    refine List.map_congr_left (fun p _ => ?_)
+    simp only [Function.comp]
+    by_cases h : ∃ q ∈ b, dist2 p q ≤ t * t
+    · obtain ⟨q, hq, hd⟩ := h
+      obtain ⟨j, hj⟩ := List.mem_iff_getElem?.mp hq
+      have := (hne p).mpr ⟨q, j, hj, hd⟩
+      simp [this]
+      exact ⟨q, hq, hd⟩
+    · have : (neighbours t b p).isEmpty = true := by
+        cases hl : (neighbours t b p).isEmpty with
+        | true => rfl
+        | false =>
+          obtain ⟨q, j, hj, hd⟩ := (hne p).mp hl
+          exact absurd ⟨q, List.mem_of_getElem? hj, hd⟩ h
+      simp [this]
+      intro q hq
+      exact lt_of_not_ge (fun hd => h ⟨q, hq, hd⟩)
+
+/-- for a well-separated set `b` (distinct points farther apart than `2·tol`) every point of `a`
+    matches at most one point of `b` -/
+theorem intersect_unique_match (b : List Pt)
+    (hb : ∀ (j j' : Nat) (q q' : Pt), b[j]? = some q → b[j']? = some q' → j ≠ j' →
+      4 * (t * t) < dist2 q q')
+    (p : Pt) (j j' : Nat) (hj : j ∈ neighbours t b p) (hj' : j' ∈ neighbours t b p) : j = j' := by
+  obtain ⟨q, hq, hd⟩ := mem_neighbours.mp hj
+  obtain ⟨q', hq', hd'⟩ := mem_neighbours.mp hj'
+  by_contra hne
+  have h1 := hb j j' q q' hq hq' hne
+  have h2 := dist2_triangle p q q'
+  linarith
+
+/-! ### finding F4: the rule used by the code today (anchor on the first norm) splits a cluster -/
+
+/-- Witness (the recorded input scaled to integers, `tol = 100`): the far-away point `(0, 99905)`
+    anchors a norm cluster that contains `(100004, 0)` (norm difference 99) but not `(100006, 0)`
+    (norm difference 101), although these two points are only 2 apart.  With the anchor rule the
+    model returns three unique points, with the chain rule the two clusters. -/
+theorem anchor_rule_splits_cluster :
+    ∃ (t : Rat) (pts : List Pt) (cl : Nat → Nat), Separated t pts cl ∧
+      (uniquify .anchor t pts).new2old ≠ firsts cl pts.length ∧
+      (uniquify .chain t pts).new2old = firsts cl pts.length :=
+  ⟨100, [[0, 99905], [100004, 0], [100006, 0]], fun i => [0, 1, 1].getD i 0,
+    separated_of_check _ (by decide +kernel), by decide +kernel, by decide +kernel⟩
+
+example : uniquify .anchor 100 [[0, 99905], [100004, 0], [100006, 0]] =
+    { pts := [[0, 99905], [100004, 0], [100006, 0]], new2old := [0, 1, 2], old2new := [0, 1, 2] } := by
+  decide +kernel
+
+example : uniquify .chain 100 [[0, 99905], [100004, 0], [100006, 0]] =
+    { pts := [[0, 99905], [100004, 0]], new2old := [0, 1], old2new := [0, 1, 1] } := by
+  decide +kernel
+
+/-! ### non-vacuity: concrete data satisfying the hypotheses, and the computed results -/
+
+/-- the first fixture of the test-suite (`tol = 1e-2`) is separated, with these cluster labels -/
+example : Separated (1 / 100) [[1, 1], [0, 0], [1 / 2, 0], [0, 0], [0, 1 / 2], [0, 0], [1 / 2, 0]]
+    (fun i => [0, 1, 2, 1, 3, 1, 2].getD i 0) :=
+  separated_of_check _ (by decide +kernel)
+
+example : uniquify .chain (1 / 100) [[1, 1], [0, 0], [1 / 2, 0], [0, 0], [0, 1 / 2], [0, 0], [1 / 2, 0]] =
+    { pts := [[1, 1], [0, 0], [1 / 2, 0], [0, 1 / 2]], new2old := [0, 1, 2, 4],
+      old2new := [0, 1, 2, 1, 3, 1, 2] } := by decide +kernel
+
+/-- a cluster with non-zero diameter whose members straddle the norm of another cluster -/
+example : Separated (1 / 10) [[1, 0], [0, 101 / 100], [102 / 100, 0], [0, 0], [0, 103 / 100]]
+    (fun i => [0, 1, 0, 2, 1].getD i 0) :=
+  separated_of_check _ (by decide +kernel)
+
+example : uniquify .chain (1 / 10) [[1, 0], [0, 101 / 100], [102 / 100, 0], [0, 0], [0, 103 / 100]] =
+    { pts := [[1, 0], [0, 101 / 100], [0, 0]], new2old := [0, 1, 3], old2new := [0, 1, 0, 2, 1] } := by
+  decide +kernel
+
+example : uniquifyPoints .chain (1 / 100) [[0, 0], [1, 0], [0, 0]] [[0, 1, 7], [0, 2, 8], [2, 1, 9]] =
+    ([[0, 0], [1, 0]], [[0, 1, 7], [0, 1, 9]], [1]) := by decide +kernel
+
+/-- the docstring example of `ismember_columns`, both sort modes -/
+example : ismember [[1, 3], [3, 3], [3, 2], [1, 3], [7, 0]] [[3, 3], [1, 3], [3, 2], [5, 1], [3, 2]] true =
+    ([true, true, true, true, false], [1, 0, 2, 1]) := by decide +kernel
+
+example : ismember [[1, 3], [3, 3], [3, 2], [1, 3], [7, 0]] [[3, 3], [1, 3], [2, 3], [5, 1], [1, 2]] false =
+    ([true, true, false, true, false], [1, 0, 1]) := by decide +kernel
+
+example : intersectSets (1 / 1000) [[0, 0], [1, 0], [2, 0]] [[2, 0], [0, 0], [0, 0], [5, 5]] =
+    { ia := [0, 2], ib := [0, 1, 2], aInB := [true, false, true], inter := [[1, 2], [], [0]] } := by
+  decide +kernel
+
 end PorepyVerif.C34
